@@ -10,7 +10,7 @@ Exit status of `run`: 0 = property held on everything explored (known findings a
 1 = a violation that is not a listed known finding (line "VIOLATION property=<id> replay=<path>"),
 2 = harness fault (a detection that does not replay; nothing is claimed).
 """
-import fnmatch, glob, hashlib, json, os, re, shutil, signal, subprocess, sys, time
+import fnmatch, glob, hashlib, json, os, re, shutil, signal, subprocess, sys, threading, time
 from concurrent.futures import ThreadPoolExecutor
 
 VERIF = os.path.dirname(os.path.dirname(os.path.abspath(__file__)))
@@ -21,6 +21,7 @@ EVID = os.environ.get("VERIF_EVIDENCE_DIR", os.path.join(VERIF, "evidence"))
 REPLAYS = os.environ.get("VERIF_REPLAY_DIR", os.path.join(VERIF, "replays"))
 SIM = os.path.join(VERIF, "sim")
 NCPU = os.cpu_count() or 8
+WORKER_STALL_S = 240
 
 COMMON = ["-std=c++20", "-DADA_URL_ADA_VERIF", "-DADA_INCLUDE_URL_PATTERN=1", "-DADA_USE_UNSAFE_STD_REGEX_PROVIDER=1",
           "-I" + SIM]
@@ -201,7 +202,24 @@ def run_worker(binary, args, seed, first, stride, seconds, outdir, tag, count=No
             detail = None
             done = False
             nruns = 0
+            # a worker that prints nothing for this long is stuck outside the simulator's control (the in-process
+            # watchdog covers simulated threads only): kill it; it is reported as a harness fault, never as a violation
+            stall = [False]
+            last_line = [time.time()]
+            finished = threading.Event()
+
+            def watchdog(proc=p, flag=stall, last=last_line, fin=finished):
+                while not fin.wait(5.0):
+                    if time.time() - last[0] > WORKER_STALL_S:
+                        flag[0] = True
+                        proc.kill()
+                        return
+
+            threading.Thread(target=watchdog, daemon=True).start()
+            nlines = 0
             for line in p.stdout:
+                nlines += 1
+                last_line[0] = time.time()
                 line = line.rstrip("\n")
                 if line.startswith("START "):
                     last_start = line[6:]
@@ -230,6 +248,11 @@ def run_worker(binary, args, seed, first, stride, seconds, outdir, tag, count=No
                 elif line.startswith("DONE "):
                     done = True
             rc = p.wait()
+            finished.set()
+        if stall[0]:
+            b.crashes.append(dict(run=None, rc=3, binary=binary, args=args, seed=seed,
+                                  err=f"worker printed nothing for {WORKER_STALL_S}s (last run started: {last_start}) and was killed\n" + tail(errf)))
+            break
         if done and rc == 0:
             break
         # the worker died inside run `last_start` (sanitizer abort, signal, watchdog)
